@@ -32,6 +32,9 @@ type Out struct {
 	BodyOK     bool     `json:"bodyOK"`
 	PertR      []string `json:"pertR"`
 	PertH      []string `json:"pertH"`
+	// diagnosis, not read by the rules: the required signatures fail as received but verify once the
+	// Content-Length header is put back to what the client sent
+	ClOnly bool `json:"clOnly"`
 }
 
 func noOut() Out {
@@ -212,6 +215,16 @@ func (w *World) RunCase(n int, q Q, r *rand.Rand, bigLen int) Line {
 	o.BodyOK = bytes.Equal(x.Body, b)
 	o.Rsa = verifyRSA(x, px.Certs)
 	o.Hmac = verifyHMAC(x)
+	if (q.Signer && o.Rsa == "bad") || (q.Hmac && o.Hmac == "bad") {
+		sentCL := ""
+		for _, l := range fl {
+			if l.Name == "Content-Length" {
+				sentCL = l.Value
+			}
+		}
+		y := withContentLength(x, sentCL)
+		o.ClOnly = (!q.Signer || verifyRSA(y, px.Certs) == "ok") && (!q.Hmac || verifyHMAC(y) == "ok")
+	}
 	if o.Rsa == "ok" || o.Hmac == "ok" {
 		names, xs := perturbations(x)
 		for i, y := range xs {
